@@ -274,6 +274,42 @@ def d3_d4(prog, rep):
               "equal-length big-endian byte order is numeric order; edges: %s" % {k: [(o, show(l)) for o, l, r in v] for k, v in rets.items()}, function=s.name, construct="sanity")
 
 
+
+BN_INFALLIBLE = {"BN_free", "BN_clear_free", "BN_CTX_free", "BN_num_bits", "BN_num_bytes", "BN_bn2bin", "BN_is_zero", "BN_is_one", "BN_cmp", "BN_ucmp", "BN_is_negative"}
+
+
+def d5_d6(prog, rep):
+    """D5: the result of every OpenSSL big-number call that can fail (for lack of memory) is tested -- an ignored failure
+    leaves a zero or stale operand and the exponentiation is then computed, exactly, on the wrong number.
+    D6: the DH entry points are total: no assertion or abort path narrows the set of private or peer values they accept."""
+    u = prog.unit(UNIT)
+    n = 0
+    for f in u.funcs:
+        if f.file != UNIT:
+            continue
+        tested = set()
+        for b in f.blocks.values():
+            if b.cond is None:
+                continue
+            for op, L, R, Le, Re in cond_atoms(b.cond, True):
+                for x in (Le, Re):
+                    if x is not None and x.strip() is not None and x.strip().cls == "CallExpr":
+                        tested.add(x.strip().pos)
+        for c in f.calls():
+            if not (c.callee or "").startswith("BN_") or c.callee in BN_INFALLIBLE:
+                continue
+            n += 1
+            rep.check(c.pos in tested, "D5-checked", "%s in %s: result tested" % (c.text[:40], f.name), c.where,
+                      "%s can fail for lack of memory; its result is not tested, so on failure the computation goes on with an unset operand and still reports success" % c.callee,
+                      function=f.name, construct="bn-checked:" + c.callee)
+        aborts = [c for c in f.calls() if c.callee in ("abort", "__assert_fail", "__assert", "exit", "_exit")]
+        rep.check(not aborts, "D6-total", "%s has no assertion or abort path" % f.name, f.loc,
+                  "%s: the function aborts for some inputs; the property requires an exact result for every private and peer value" % [a.text[:50] for a in aborts],
+                  function=f.name, construct="total")
+    if n < 15:
+        rep.defer_broken("D5: fewer than 15 fallible BN calls found in crypto_dh.c")
+
+
 def run(tier):
     rep = report.Report("C10", tier,
         "Decided: the modulus table equals RFC 3526 group 14 as derived here from pi (D1); along blinded_modexp's success path every "
@@ -287,6 +323,7 @@ def run(tier):
     d1(prog, rep, tier)
     d2(prog, rep)
     d3_d4(prog, rep)
+    d5_d6(prog, rep)
     # the BIGNUMs of one computation live and die inside it: acquisitions tested, released on every failure path, and no released
     # pointer survives in static storage for the next call to compute with (allocation discipline shared with C14)
     from . import c14
